@@ -724,3 +724,22 @@ def callback_bodies(prog, f, expr, depth=0):
     if m is not None:
       return [(m.node, [])]
   return []
+
+
+def inline_expr_methods(prog, f, node, depth=0):
+  """Copy of an expression in which calls `self.M()` (no arguments) of methods whose whole body is `return <expr>` are replaced by that
+  expression (a predicate such as `is_blocking()` stands for the comparison it returns)."""
+  if getattr(f, 'cls', None) is None or depth > 2:
+    return node
+
+  class T(ast.NodeTransformer):
+    def visit_Call(self, n):
+      self.generic_visit(n)
+      if isinstance(n.func, ast.Attribute) and isinstance(n.func.value, ast.Name) and n.func.value.id == 'self' and not n.args and not n.keywords:
+        m = prog.lookup_method(f.cls, n.func.attr)
+        if m is not None and len(m.params) == 1:
+          body = [s_ for s_ in m.node.body if not (isinstance(s_, ast.Expr) and isinstance(s_.value, ast.Constant))]
+          if len(body) == 1 and isinstance(body[0], ast.Return) and body[0].value is not None:
+            return ast.copy_location(inline_expr_methods(prog, m, _copy.deepcopy(body[0].value), depth + 1), n)
+      return n
+  return T().visit(_copy.deepcopy(node))
